@@ -45,6 +45,7 @@ structure Sc where
   readers   : Nat := 1               -- goroutines reading one stream concurrently (teardown mode): the order in which their reads are LOGGED is not the delivery order
   closeCalled : List Nat := []       -- sides on which Close() was called by the scenario's injection
   sdDone    : List Nat := []         -- sides that sent or were handed a SHUTDOWN-COMPLETE
+  closeAt   : List (Nat × Nat × Nat) := []  -- (writer side, stream, number of write lines logged when its Close returned)
   deriving Inhabited
 
 def kvs (toks : List String) : List (String × String) :=
@@ -122,6 +123,13 @@ def noteTx (sc : Sc) (side : Nat) (summary : List String) : Sc := Id.run do
 
 def msgsOf (sc : Sc) (dir si : Nat) : List Msg :=
   (sc.writes.toList.filter fun (d, s, _, ok) => d == dir && s == si && ok).map fun (_, _, m, _) => m
+/-- accepted writes on a stream, split at log position `cut` (storm mode: `cut` = where `Stream.Close`, called from ANOTHER
+goroutine, returned; a write logged later was accepted although the stream had been closed) -/
+def msgsSplit (sc : Sc) (dir si cut : Nat) : List Msg × List Msg :=
+  let idx := (List.range sc.writes.size).zip sc.writes.toList
+  let mine := idx.filter fun (_, d, s, _, ok) => d == dir && s == si && ok
+  ((mine.filter fun (i, _) => i < cut).map (fun (_, _, _, m, _) => m), (mine.filter fun (i, _) => i ≥ cut).map (fun (_, _, _, m, _) => m))
+
 def readsOf (sc : Sc) (side si : Nat) : List Msg :=
   (sc.reads.toList.filter fun (d, s, _) => d == side && s == si).map fun (_, _, m) => m
 
@@ -154,16 +162,28 @@ def checkFin (sc : Sc) (fin : List (String × String)) (leakNames : String) : Li
     let ws := msgsOf sc st.dir st.id
     let rs := readsOf sc (1 - st.dir) st.id
     let reliable := st.relType == 0
+    -- storm mode: Stream.Close may come from another goroutine while a write is inside WriteSCTP. What was accepted before
+    -- Close returned must arrive; a write accepted AFTER Close returned is judged separately (known finding K20-write-close-race)
+    let cut := if sc.mode == "storm" then
+        match sc.closeAt.find? (fun (d, s, _) => d == st.dir && s == st.id) with
+        | some (_, _, n) => n
+        | none => sc.writes.size
+      else sc.writes.size
+    let (wsB, wsLate) := msgsSplit sc st.dir st.id cut
     if reliable && !st.unordered && sc.readers ≤ 1 then
       if !isPrefixOf rs ws then
         out := out ++ [s!"[{x07}C01] ordered reliable stream {st.id}: reads are not a prefix of the accepted writes ({describeDiff rs ws})"]
-      else if sc.ended && rs.length != ws.length then
-        out := out ++ [s!"[{x07}C02,C01] ordered reliable stream {st.id}: {rs.length} of {ws.length} messages delivered after the network healed"]
+      else if sc.ended && rs.length < wsB.length then
+        out := out ++ [s!"[{x07}C02,C01] ordered reliable stream {st.id}: {rs.length} of {wsB.length} messages delivered after the network healed"]
     else if reliable then
       if !isSubMultiset rs ws then
         out := out ++ [s!"[{x07}C06] unordered reliable stream {st.id}: a read does not match a distinct written message ({describeDiff rs ws})"]
-      else if sc.ended && rs.length != ws.length then
-        out := out ++ [s!"[{x07}C02,C06] unordered reliable stream {st.id}: {rs.length} of {ws.length} messages delivered after the network healed"]
+      else if sc.ended && !isSubMultiset wsB rs then
+        out := out ++ [s!"[{x07}C02,C06] unordered reliable stream {st.id}: {rs.length} of {wsB.length} messages delivered after the network healed"]
+    if reliable && sc.ended then
+      for m in wsLate do
+        if !rs.contains m then
+          out := out ++ [s!"[C20,C14] stream {st.id}: a write of {m.len} bytes was accepted (no error) after Stream.Close, called from another goroutine, had returned, and was never delivered: the write passed its state test before the Close and was queued behind the reset request"]
     else if !st.unordered then
       if !isSubsequenceOf rs ws then
         out := out ++ [s!"[C06,C07] ordered partially reliable stream {st.id}: reads are not a subsequence of the writes ({describeDiff rs ws})"]
